@@ -10,6 +10,7 @@ import (
 	"log/slog"
 	"os"
 	"runtime"
+	"strconv"
 	"strings"
 	"sync"
 	"testing"
@@ -60,6 +61,10 @@ type Case struct {
 	IdleBurstLen int `json:"idle_burst_len"`
 	// SysLog: the configuration carries a system log (every real application sets one).
 	SysLog bool `json:"system_log"`
+	// SourceBlockMs > 0: the reader call that would deliver the byte at offset SourceBlockAt blocks for that
+	// long first (no end-of-file, no error - a line that is simply quiet), then the data goes on.
+	SourceBlockAt int `json:"source_block_at_byte"`
+	SourceBlockMs int `json:"source_block_ms"`
 }
 
 type scriptReader struct {
@@ -76,6 +81,9 @@ type scriptReader struct {
 	idleEach  int
 	burstAt   int
 	burstLen  int
+	blockAt   int
+	blockMs   int
+	blocked   bool
 	prog      *appsup.Progress
 	dataSince bool // a data-bearing read has happened since the last injected EOF
 }
@@ -115,6 +123,16 @@ func (r *scriptReader) Read(p []byte) (int, error) {
 	}
 	if n > len(r.data)-r.pos {
 		n = len(r.data) - r.pos
+	}
+	if r.blockMs > 0 && !r.blocked {
+		if r.pos < r.blockAt {
+			if n > r.blockAt-r.pos {
+				n = r.blockAt - r.pos
+			}
+		} else {
+			r.blocked = true
+			time.Sleep(time.Duration(r.blockMs) * time.Millisecond)
+		}
 	}
 	copy(p, r.data[r.pos:r.pos+n])
 	r.pos += n
@@ -213,6 +231,10 @@ func check(c Case, o *stats.Obs) error {
 	cfg := &jsonconfig.Config{}
 	rd.idleEach = c.IdleEach
 	rd.burstAt, rd.burstLen = c.IdleBurstAt, c.IdleBurstLen
+	rd.blockAt, rd.blockMs = c.SourceBlockAt, c.SourceBlockMs
+	if c.SourceBlockMs > 0 {
+		o.Class("source-blocks-for-seconds")
+	}
 	if c.SysLog {
 		cfg.SystemLog = log.New(io.Discard, "", 0)
 		o.Class("system-log-set")
@@ -395,6 +417,23 @@ func genStall(t *rapid.T) Case {
 		c.Stream.Segs = append(c.Stream.Segs, gen.Segment{Kind: "valid", Data: gen.ValidFrame(t, 40)})
 	}
 	c.SysLog = rapid.Bool().Draw(t, "systemLog")
+	sourceBlocks := rapid.Bool().Draw(t, "sourceBlocks")
+	if sh, err := strconv.Atoi(os.Getenv("VERIF_SHARD")); err == nil {
+		sourceBlocks = sh%2 == 1 // both kinds in every run
+	}
+	if sourceBlocks {
+		// instead of a consumer, the source is quiet for seconds - between two frames or inside one
+		off := 0
+		var at []int
+		for _, g := range c.Stream.Segs {
+			at = append(at, off+len(g.Data)/2, off+len(g.Data))
+			off += len(g.Data)
+		}
+		c.SourceBlockAt = rapid.SampledFrom(at[1:len(at)-1]).Draw(t, "sourceBlockAt")
+		c.SourceBlockMs = longStallMs()
+		c.Consumers = []Consumer{{Cap: 0}, {Cap: 1}}
+		return c
+	}
 	c.Consumers = []Consumer{{Cap: rapid.SampledFrom([]int{0, 1}).Draw(t, "cap"), Mode: 3, K: rapid.IntRange(0, 1).Draw(t, "stallAt")}, {Cap: 1}}
 	return c
 }
